@@ -44,6 +44,8 @@ VARIANTS = {
     "asan": ("gcc", SHIPPED + ["-O1", "-DNDEBUG", "-g", UBSAN, "-fno-sanitize-recover=all", "-fno-omit-frame-pointer"],
              ["-O1", "-g", UBSAN, "-fno-sanitize-recover=all", "-fno-omit-frame-pointer"],
              [UBSAN]),
+    # work meter for C19: basic blocks of library code executed (the harness is not instrumented)
+    "work": ("gcc", SHIPPED + ["-O2", "-DNDEBUG", "-g", "-fsanitize-coverage=trace-pc"], ["-O2", "-g", "-DSIM_WORK"], []),
     # race detection for C06: only /repo/src/memory.c and worlds/memc_payload.c are instrumented (see TSAN_ONLY)
     "tsan": ("clang", SHIPPED + ["-O1", "-DNDEBUG", "-g", "-fno-omit-frame-pointer"], ["-O1", "-g", "-DSIM_TSAN"], ["-fsanitize=thread"]),
 }
@@ -445,6 +447,16 @@ def confirm_violation(bins, x, seed):
 
 # --------------------------------------------------------------- findings
 
+def mem_available_gib():
+    try:
+        for line in open("/proc/meminfo"):
+            if line.startswith("MemAvailable:"):
+                return int(line.split()[1]) / (1 << 20)
+    except OSError:
+        pass
+    return 0.0
+
+
 def load_known():
     path = os.path.join(VERIF, "known_findings.json")
     if not os.path.exists(path):
@@ -474,12 +486,18 @@ def do_check(prop, tier, seed, scale=1.0, jobs=NCPU):
     os.makedirs(EVIDENCE, exist_ok=True); os.makedirs(REPLAYS, exist_ok=True)
 
     total = BatchResult()
+    skipped_batches = []
     per_batch = []
     samples = []
     all_viols = []
     try:
         for b in spec["batches"]:
             n = int(b[tier] * scale)
+            if b[tier] == 0:
+                continue            # a batch that exists in one tier only
+            if b.get("min_mem_gib") and mem_available_gib() < b["min_mem_gib"]:
+                skipped_batches.append(dict(world=b["world"], mode=b["mode"], reason=f"needs {b['min_mem_gib']} GiB of available memory"))
+                continue
             plan = []
             lo = 0
             for v, share in b["variants"].items():
@@ -610,6 +628,7 @@ def do_check(prop, tier, seed, scale=1.0, jobs=NCPU):
                 fault_and_reach_probes=probes,
                 required_probes_missing=missing,
                 batches=per_batch,
+                batches_skipped=skipped_batches,
                 violations_of_other_properties_seen=other_prop,
                 known_findings_hit=[kf["key"] for kf, _ in known_hits],
                 real_code=spec.get("real_code", []),
@@ -685,7 +704,7 @@ def main():
     ap.add_argument("args", nargs="*")
     ap.add_argument("--tier", default=os.environ.get("VERIF_TIER", "quick"))
     ap.add_argument("--seed", type=int, default=None)
-    ap.add_argument("--runs-scale", type=float, default=1.0)
+    ap.add_argument("--runs-scale", type=float, default=float(os.environ.get("VERIF_RUNS_SCALE", "1.0")))
     ap.add_argument("--n", type=int, default=300)
     ap.add_argument("--variant", default="rel")
     a = ap.parse_args()
